@@ -31,7 +31,7 @@ gc.install()
 
 def _coeffs(out, zs):
     t = symrun.lift(out)
-    return [symrun.SymReal(D(t, symrun.lift(z))) for z in zs]
+    return [symrun.from_term(D(t, symrun.lift(z))) for z in zs]
 
 
 @contract(P, "RandMeth.__call__/amplitude-moments", params=[{"dim": d, "N": n} for d in (1, 2, 3) for n in (1, 2)],
@@ -105,10 +105,10 @@ def nugget_noise(ctx, dim):
     ctx.ensure("noise=sqrt(nugget)*draw", ctx.And(*[ctx.eq(n, m.sqrt(mod.nugget) * symrun.SymReal(d))
                                                    for n, d in zip(noise, _draw_atoms(noise))]))
     L = ctx.lemma("sqrt(nugget)^2=nugget", ctx.eq(m.sqrt(mod.nugget) * m.sqrt(mod.nugget), mod.nugget))
-    c = symrun.SymReal(D(symrun.lift(noise[0]), _draw_atoms(noise)[0]))
+    c = symrun.from_term(D(symrun.lift(noise[0]), _draw_atoms(noise)[0]))
     ctx.ensure("noise-variance=nugget", ctx.eq(c * c, mod.nugget), using=[L])
     ctx.ensure("independent-of-other-points",
-               ctx.eq(symrun.SymReal(D(symrun.lift(noise[0]), _draw_atoms(noise)[1])), 0))
+               ctx.eq(symrun.from_term(D(symrun.lift(noise[0]), _draw_atoms(noise)[1])), 0))
 
 
 def _draw_atoms(noise):
